@@ -975,7 +975,7 @@ func otherCurveCase(t *engine.T, cv elliptic.Curve) {
 
 func runWiden2(c *engine.Ctx) {
 	for _, dim := range []string{"uid", "msg"} {
-	c.Case("widen/recover-public-keys/degenerate", recoverDegenerateCase)
+		c.Case("widen/recover-public-keys/degenerate", recoverDegenerateCase)
 		lens := sweepLens(dim, c.Quick())
 		for from := 0; from < len(lens); from += 24 {
 			to := from + 24
